@@ -36,6 +36,9 @@ pub fn years_alphabet() -> Alphabet {
             evs.push(alpha::sell(*d, "A", "1", "0.5", "2"));
         } else if i % 3 == 1 {
             evs.push(alpha::sell(*d, "A", "4", "0", "0.4"));
+        } else {
+            // a second fill at exactly the price of the first one, with its own fee
+            evs.push(alpha::sell(*d, "A", "2", &format!("{}", 12 + i), "0.75"));
         }
         if i % 2 == 0 {
             evs.push(alpha::dividend(*d, "A", "30", "3"));
